@@ -15,7 +15,6 @@ use lance_index::{DatasetIndexExt, IndexType};
 use serde_json::json;
 use std::collections::BTreeMap;
 use std::path::PathBuf;
-use std::sync::Arc;
 
 pub struct BaseState {
     pub _dir: tempfile::TempDir,
@@ -188,7 +187,7 @@ pub fn run(args: &Args, sink: &mut Sink, rng: &mut Rng, rt: &tokio::runtime::Run
                             _ => vec![1, 3],
                         };
                         let dsv = if rng.chance(1, 4) { 5 } else { 7 };
-                        let case = rt.block_on(one_case(b, &plan, bt.clone(), bv.clone(), du, err, &tags, dsv, &mut st_retain));
+                        let case = rt.block_on(one_case(b, &plan, bt.clone(), bv.clone(), du, err, &tags, dsv));
                         let (w, pol, o) = case;
                         assert!(w.in_domain(), "mtime too close to the 7-day threshold");
                         let kind = format!("unit-{tl}{delta:+}");
@@ -209,7 +208,7 @@ pub fn run(args: &Args, sink: &mut Sink, rng: &mut Rng, rt: &tokio::runtime::Run
         let (cbase, curi) = tmp_uri(&dir);
         copy_tree(&b.base, &cbase);
         let h = ClockHandler::new();
-        for n in [0usize, 1, 6, 7, 8] {
+        for n in [0usize, 1, 3, 6, 7, 8, 99] {
             let r = catch(|| {
                 rt.block_on(async {
                     let ds = open(&curi, &h).await.unwrap();
@@ -239,7 +238,6 @@ async fn one_case(
     err: bool,
     tags: &[u64],
     dsv: u64,
-    st_retain: &mut Stream,
 ) -> (World, Pol, Observed) {
     let dir = tempfile::tempdir().unwrap();
     let (cbase, curi) = tmp_uri(&dir);
@@ -261,9 +259,7 @@ async fn one_case(
         BV::None => None,
         BV::Direct(v) => Some(v),
         BV::Retain(n) => {
-            let v = CleanupPolicyBuilder::default().retain_n_versions(&ds, n).await.unwrap().build().before_version.unwrap();
-            st_retain.push(format!("({}, {})", coq::nlist([1u64, 2, 3, 4, 5, 6, 7].iter()), n), format!("(Ok {})", v), json!({"versions": 7, "n": n, "before_version": v}));
-            Some(v)
+            CleanupPolicyBuilder::default().retain_n_versions(&ds, n).await.unwrap().build().before_version
         }
     };
     let pol = Pol { before_ts: bt, before_version, du, err_tagged: err };
@@ -272,6 +268,5 @@ async fn one_case(
     tv.sort();
     let w = World { dsv, tags: tv, now: now_ns(), manifests: b.manifests.clone(), files };
     let o = observe_cleanup(&ds, &cbase, &w, &pol).await;
-    let _ = Arc::new(0);
     (w, pol, o)
 }
